@@ -538,6 +538,59 @@ def run_entity(chk, case):
                                     % (kind, case["seed"], d3[0], d3[1], d3[2])))
     except Exception as e:
         fails.append(oracle("C10:entity-edit-raises:%s" % kind, "complete %s message (seed %d): editing and re-serialising raises %s: %s" % (kind, case["seed"], type(e).__name__, str(e)[:120])))
+    # ---- the application changes a field THROUGH THE ENTITY (the entity classes offer their content as properties with setters: compose, upload,
+    #      then `entity.url = ...; entity.media_key = ...`): what is set there is what the payload carries and what the peer's entity shows
+    try:
+        ent4 = cls(build_obj(sub, spec), meta) if kind != "conversation" else TextMessageProtocolEntity(body, meta)
+        props = sorted(n for n in dir(type(ent4)) if isinstance(getattr(type(ent4), n, None), property) and getattr(type(ent4), n).fset is not None)
+        r4 = random.Random(case["seed"] ^ 0x5e77e4)
+        r4.shuffle(props)
+        ftypes = {}
+        if sub:
+            for path_, t_ in ps.flat_fields(sub):
+                ftypes.setdefault(path_.split(".")[-1], t_)
+        for name in props:
+            try:
+                old = getattr(ent4, name)
+            except Exception:
+                chk.hit("entity:property-unreadable:%s.%s" % (type(ent4).__name__, name))     # (an accessor that cannot be read at all is no field the sender can set)
+                continue
+            if isinstance(old, bool):
+                continue
+            if old is None:
+                # a field the sender left unset and sets now: its type comes from the payload schema (same field name)
+                old = {"bytes": b"", "str": "", "int": 0}.get(ftypes.get(name))
+                if old is None:
+                    continue
+            if isinstance(old, bytes):
+                new = bytes(r4.randrange(1, 256) for _ in range(max(1, len(old)))) + b"\x01"
+            elif isinstance(old, str):
+                new = old + "-set%d" % r4.randrange(100)
+            elif isinstance(old, int):
+                new = old + 1 + r4.randrange(5)
+            else:
+                continue
+            try:
+                setattr(ent4, name, new)
+                now = getattr(ent4, name)
+            except Exception:
+                chk.hit("entity:property-unwritable:%s.%s" % (type(ent4).__name__, name))
+                ent4 = cls(build_obj(sub, spec), meta) if kind != "conversation" else TextMessageProtocolEntity(body, meta)
+                continue
+            if now != new:
+                fails.append(oracle("C10:entity-setter-lost:%s:%s" % (kind, name), "complete %s message (seed %d): %s set to %r through the entity; the entity itself then shows %r"
+                                    % (kind, case["seed"], name, new, now)))
+                break
+            back4 = cls.fromProtocolTreeNode(ent4.toProtocolTreeNode())
+            chk.hit("entity:set-through-entity")
+            got = getattr(back4, name)
+            if got != new and not (kind == "document" and name == "file_length"):
+                fails.append(oracle("C10:entity-setter-not-serialised:%s:%s" % (kind, name), "complete %s message (seed %d): %s set to %r through the entity (was %r); after "
+                                    "serialising and parsing the entity shows %r" % (kind, case["seed"], name, new, old, got)))
+                break
+    except Exception as e:
+        fails.append(oracle("C10:entity-setter-raises:%s" % kind, "complete %s message (seed %d): setting a field through the entity and re-serialising raises %s: %s"
+                            % (kind, case["seed"], type(e).__name__, str(e)[:120])))
     p1, p2 = node.getChild("proto"), node2.getChild("proto")
     if bytes(p1.getData()) != bytes(p2.getData()) or p1["mediatype"] != p2["mediatype"] or node["type"] != node2["type"]:
         if not (kind == "document"):
